@@ -158,13 +158,14 @@ theorem c19_observer_sees_only_completed_stages (cfg : Cfg) (obs : Option StageO
   runFromO_seen cfg obs stages 0 ⟨x, clamp cfg 1, none⟩ j hj
 
 /-- **The loop body of the source is the model's.**  `Gen/CascadeTable.lean` is regenerated on every run by evaluating the
-    REAL `Cascade.run` on every one-stage pipeline and every two-stage pipeline of required stages over the behaviour
-    alphabet (checkpoint none/pass/reject/raise x processor ok/raise x handler none/ok/raise x required) x both
-    `halt_on_failure` settings x three `max_amplification` values (never clamping, clamping after two completed stages, clamping
-    at the first) — 3 744 runs; the model reproduces every row: success, final output, completed count,
-    blocked stage, per-stage status, the complete callback log and the amplification. -/
+    REAL `Cascade.run` on every one-stage pipeline over the behaviour alphabet (checkpoint none/pass/reject/raise and
+    pass/reject/raise answered by a gate OBJECT whose own truth value is false x processor ok/raise x handler none/ok/raise x
+    required) x both `halt_on_failure` settings x four `max_amplification` values (never clamping, clamping after two completed
+    stages, clamping at the first, 0: held from the start) and every two-stage pipeline of required stages x both settings x
+    the first three maxima — 4 128 runs; the model reproduces every row: success, final output, completed count, blocked
+    stage, per-stage status, the complete callback log and the amplification. -/
 theorem c19_stage_table_agrees :
-    ∃ rows, Gen.CascadeTable.table = some rows ∧ rows.length = 3744 ∧ rows.all rowAgrees = true := by
+    ∃ rows, Gen.CascadeTable.table = some rows ∧ rows.length = 4128 ∧ rows.all rowAgrees = true := by
   refine ⟨_, rfl, by decide +kernel, by decide +kernel⟩
 
 private def sPassE : Stage Nat := ⟨some fun _ => .ok true, fun x => .ok (x + 1), none, true, 2⟩
